@@ -218,6 +218,70 @@ def r3_bytes_out(w):
         else:
             r.bad(cons, '%s|printed-value|%s' % (b.short, '+'.join(sorted(x.split(':')[0] for x in tags))),
                   'value printed in %s under result variant %s has provenance %s, expected %s' % (b.short, sorted(variant), sorted(tags), sorted(want)), b.loc(t['span']))
+    # who may write to stdout: only print! (judged above).  A hand-written writer (stdout().write(..) may write only part of the text,
+    # write_all / writeln! bypass the template check) is reported; the shell-completion generator is the one other stdout user.
+    printed = {'formatted': 0, 'input': 0}
+    for (b, bi, t, shown, template) in c14.text_prints(c):
+        if callee_path(t) == 'std::io::_print':
+            for (s_, how, ors) in shown:
+                for tag in c.classify_text(b, ors):
+                    if tag in printed:
+                        printed[tag] += 1
+    for fb in c.fns():
+        for bi, t in fb.calls():
+            p = resolved_path(t) or callee_path(t) or ''
+            dp = callee_path(t) or ''
+            if not (re.search(r'std::io::(stdio::)?stdout$', p) or re.search(r'std::io::(stdio::)?stdout$', dp)):
+                continue
+            cons = {'fn': fb.short, 'call': 'std::io::stdout()'}
+            if (fb.j.get('impl_trait') or {}).get('path', '').startswith('log::'):
+                r.ok(cons, 'the logger\'s sink for info-level diagnostics (shown below never to be reached in stdout-output mode)')
+                continue
+            # where does the handle go?
+            users = sorted({(resolved_path(t2) or callee_path(t2) or '').rsplit('::', 2)[-2] + '::' + (resolved_path(t2) or callee_path(t2) or '').rsplit('::', 1)[-1]
+                            for _, t2 in fb.calls() if re.search(r'Stdout|StdoutLock|io::Write|clap_complete', (callee_str(t2) or '') + (resolved_path(t2) or ''))})
+            if any('clap_complete' in (resolved_path(t2) or callee_path(t2) or '') for _, t2 in fb.calls()) and not any(
+                    re.search(r'io::Write>?::(write|write_all|write_fmt)$', resolved_path(t2) or callee_path(t2) or '') for _, t2 in fb.calls()):
+                r.ok(cons, 'handed to the shell-completion generator (not formatter output)')
+            else:
+                r.bad(cons, '%s|stdout-writer' % fb.short,
+                      '%s writes to stdout through its own handle (%s) instead of print!("{}"): a plain Write::write may emit only part of the text, and the byte-exact template '
+                      'check does not apply' % (fb.short, users), fb.loc(t['span']))
+    # info-level (and lower) log messages go to stdout too: in a function that prints text they must be confined to check / in-place mode
+    printers = {b.id for (b, bi, t, shown, template) in c14.text_prints(c) if callee_path(t) == 'std::io::_print'
+                and not (b.j.get('impl_trait') or {}).get('path', '').startswith('log::')}
+    for fb in c.fns():
+        owner = fb
+        while owner.def_kind == 'Closure' and owner.parent in w.bodies:
+            owner = w.bodies[owner.parent]
+        if owner.id not in printers:
+            continue
+        fv = c.view(fb)
+        for bi, t in fb.calls():
+            if (callee_path(t) or '') != 'log::__private_api::log' or len(t['args']) < 2:
+                continue
+            level = set()
+            for o in fv.pv.peel(fv.pv.origins_operand(t['args'][1])):
+                if o[0] == 'agg':
+                    level.add(fv.pv.agg_rvalue(o).get('vname'))
+                else:
+                    level.add('?')
+            cons = {'fn': fb.short, 'log_level': sorted(map(str, level)), 'bb': bi}
+            if level <= {'Error', 'Warn'}:
+                r.ok(cons, 'goes to stderr')
+                continue
+            gs = fv.guards(bi)
+            if any((atom == CHECK or atom == INPLACE) and vals == {True} for atom, vals, _ in gs):
+                r.ok(cons, 'only in check / in-place mode, where nothing formatted is printed')
+            else:
+                r.bad(cons, '%s|log-to-stdout' % fb.short,
+                      'an info-level log message is emitted in %s outside check / in-place mode: the logger prints it to stdout, between the formatted texts' % fb.short, fb.loc(t['span']))
+    for tag, n in sorted(printed.items()):
+        cons = {'printed_with_print_macro': tag, 'sites': n}
+        if n >= 1:
+            r.ok(cons, 'the %s text reaches stdout through print!' % tag)
+        else:
+            r.bad(cons, 'no-print|%s' % tag, 'no print!("{}") of the %s text was found: the CLI would not emit it (or emits it some other way)' % tag)
     # erroneous payload is the input itself
     for fb in c.fns():
         for bi, blk in enumerate(fb.blocks):
